@@ -46,6 +46,8 @@ def run(idx: Index, rep: Report, tier: str):
     check_frequency_split(idx, rep)
     check_cirq_record_assembly(idx, rep)
     check_collapse_numeric(idx, rep)
+    from .C01 import check_cirq_initial_state
+    check_cirq_initial_state(idx, rep)          # the unconditioned distribution and its branches start from the same supplied state on every cirq path
 
 
 def check_simulate_forwarding(idx: Index, rep: Report):
